@@ -5,6 +5,7 @@ import PptxModel.Model.Fill
 import PptxModel.Model.Adjust
 import PptxModel.Model.Spacing
 import PptxModel.Model.Autofit
+import PptxModel.Model.LineFmt
 namespace Pptx.Drv.C09
 open Pptx Pptx.Proto Pptx.PropStore Pptx.SimpleTypes
 
@@ -234,7 +235,36 @@ def fitRun (s : St) : List Val → List String
     s!"{if ok then "ok" else "V"}|{encSt s'}|{rd s'}" :: fitRun s' rest
 end Fit
 
+/-! `c09.line`: `-` (no a:ln) or `w/prst/cust` (`n` = absent, cust 0/1), assignments `wn` / `w<emu>` / `dn` / `d<k>` / `dx`;
+    per assignment: verdict, a:ln as stored, width and dash style as read -/
+namespace Lin
+open Pptx.LineFmt
+def decSt (t : String) : Option St :=
+  if t == "-" then some none else
+  match t.splitOn "/" with
+  | [w, p, c] => do let w ← Spc.on w; let p ← Spc.on p; let c ← c.toNat?; pure (some ⟨w, p, c != 0⟩)
+  | _ => none
+def encSt : St → String
+  | none => "-"
+  | some l => s!"{Spc.sn l.w}/{Spc.sn l.prst}/{if l.cust then 1 else 0}"
+def decOp (t : String) : Option Op :=
+  if t == "wn" then some (.width none) else if t == "dn" then some (.dash .none) else if t == "dx" then some (.dash .other)
+  else if t.startsWith "w" then (t.drop 1).toString.toInt?.map fun e => .width (some e)
+  else if t.startsWith "d" then (t.drop 1).toString.toNat?.map fun k => .dash (.member k)
+  else none
+def rd (s : St) : String := s!"{width s},{Spc.sn (dashOf s)}"
+def lineRun (s : St) : List Op → List String
+  | [] => []
+  | op :: rest =>
+    let (s', ok) := step s op
+    s!"{if ok then "ok" else "V"}|{encSt s'}|{rd s'}" :: lineRun s' rest
+end Lin
+
 def handle : List String → Option String
+  | ["c09.line", start, ops] => do
+      let s ← Lin.decSt start
+      let ops ← if ops == "!" then some [] else (ops.splitOn ";").mapM Lin.decOp
+      pure (";".intercalate (s!"start|{Lin.encSt s}|{Lin.rd s}" :: Lin.lineRun s ops))
   | ["c09.fit", start, ops] => do
       let s ← if start == "!" then some [] else (start.splitOn ",").mapM Fit.decEl
       let ops ← if ops == "!" then some [] else (ops.splitOn ";").mapM Fit.decVal
